@@ -230,6 +230,32 @@ async fn run(sc: Value) {
                 results.push(json!({"op": "action", "kind": kind, "nid": nid, "tid": tid, "ok": r.is_ok(), "err": r.err().map(|e| e.to_string())}));
                 }
             }
+            "race_pair" => {
+                // two client threads released by one barrier, each completing ONE of two different open acts of the process
+                let pi = st["pid_index"].as_u64().unwrap_or(0) as usize;
+                let pid = pids.get(pi).cloned().unwrap_or_default();
+                let tasks = tasks_of(&engine, &pid);
+                let nids: Vec<String> = st["nids"].as_array().map(|a| a.iter().filter_map(|x| x.as_str().map(|s| s.to_string())).collect()).unwrap_or_default();
+                let tids: Vec<String> = nids.iter().map(|n| tasks.iter().filter(|t| t["nid"] == n.as_str()).next()
+                    .map(|t| t["tid"].as_str().unwrap().to_string()).unwrap_or("missing".to_string())).collect();
+                let opts: Vec<acts::Vars> = (0..nids.len()).map(|i| vars_of(&st["options"][i])).collect();
+                let barrier = std::sync::Barrier::new(nids.len());
+                let handle = tokio::runtime::Handle::current();
+                let oks: Vec<bool> = std::thread::scope(|sc| {
+                    let hs: Vec<_> = (0..nids.len()).map(|i| {
+                        let (engine, pid, tid, o, barrier, handle) = (&engine, &pid, &tids[i], &opts[i], &barrier, &handle);
+                        sc.spawn(move || {
+                            let _g = handle.enter();
+                            let ex = engine.executor();
+                            let a = ex.act();
+                            barrier.wait();
+                            a.complete(pid, tid, o).is_ok()
+                        })
+                    }).collect();
+                    hs.into_iter().map(|h| h.join().unwrap_or(false)).collect()
+                });
+                results.push(json!({"op": "race_pair", "nids": nids, "oks": oks}));
+            }
             "answer_all" => {
                 let pi = st["pid_index"].as_u64().unwrap_or(0) as usize;
                 let pid = pids.get(pi).cloned().unwrap_or_default();
